@@ -76,6 +76,7 @@ Apply(f, x) ==
       [] f.n = "listn"   -> LstV([j \in 1..(V(x) % 3) |-> IntV(V(x) * 10 + j)])
       [] f.n = "errcode" -> IntV(V(x))            \* error mapper: VerifError(c) -> c
       [] f.n = "errconst" -> IntV(f.c)
+      [] f.n = "errnone"  -> None                 \* error mapper: a missing value in place of the failure
 
 (* predicates: return BoolV(TRUE) / BoolV(FALSE) / an exception token *)
 Test(p, x) ==
